@@ -56,14 +56,14 @@ def replay_prefix(sc, prog):
 
 
 def _subtree(job):
-    sc_name, prefix, max_calls = job
+    sc_name, prefix, max_calls, free0, expand = job
     scs, oracle = _JOB
     sc = scs[sc_name]
     res = E2Result()
     seen_complete = set()
-    stack = [list(prefix)]
+    stack = [(list(prefix), free0)]
     while stack:
-        prog = stack.pop()
+        prog, free = stack.pop()
         try:
             ctx = replay_prefix(sc, prog)
         except bpm.WellFormednessBug:
@@ -112,9 +112,11 @@ def _subtree(job):
                         res.fails.append((sig, msg, {"scenario": sc_name, "program": full}))
                 except Exception as e:  # noqa: BLE001
                     res.fails.append(("oracle-exception", f"{type(e).__name__}: {e} {traceback.format_exc(limit=-3)[-400:]}", {"scenario": sc_name, "program": full}))
-        if len(prog) < max_calls:
+        # forced steps (a menu with a single entry) do not count against the free-call bound
+        if expand and menu and (free < max_calls or len(menu) == 1):
+            nfree = free + (1 if len(menu) > 1 else 0)
             for call in reversed(menu):
-                stack.append(prog + [call])
+                stack.append((prog + [call], nfree))
     res.fails = res.fails[:200]
     return res
 
@@ -127,25 +129,26 @@ def explore(scenarios: dict, oracle, plan: list, shard_depth: int = 2, procs=Non
     total = E2Result()
     for sc_name, max_calls in plan:
         sc = scenarios[sc_name]
-        # master enumerates the prefixes of length < shard_depth itself
-        frontier = [[]]
-        for _ in range(min(shard_depth, max_calls)):
+        # the master enumerates the shallow prefixes itself; deeper subtrees go to the workers
+        frontier = [([], 0)]
+        for level in range(8):
+            if level >= shard_depth and len(frontier) >= 256:
+                break
             nxt = []
-            for prog in frontier:
+            for prog, free in frontier:
                 try:
                     ctx = replay_prefix(sc, prog)
                 except Exception:  # noqa: BLE001
                     continue
-                if bpm.complete(ctx):
-                    continue
-                for call in bpm.enabled(ctx):
-                    nxt.append(prog + [call])
-            # shallower prefixes are judged by single-node jobs
-            for prog in frontier:
-                jobs.append((sc_name, prog, len(prog)))
+                menu = [] if bpm.complete(ctx) else bpm.enabled(ctx)
+                if menu and (free < max_calls or len(menu) == 1):
+                    nfree = free + (1 if len(menu) > 1 else 0)
+                    for call in menu:
+                        nxt.append((prog + [call], nfree))
+                jobs.append((sc_name, prog, max_calls, free, False))  # judged, not expanded
             frontier = nxt
-        for prog in frontier:
-            jobs.append((sc_name, prog, max_calls))
+        for prog, free in frontier:
+            jobs.append((sc_name, prog, max_calls, free, True))
     results = pmap(_subtree, jobs, chunksize=max(1, min(20, len(jobs) // 128)), procs=procs)
     for r in results:
         total.merge(r)
